@@ -252,6 +252,11 @@ def check(repo: Repo, run: Run) -> None:
                                                             for o in (x.a[1], x.a[2])):
                     shared = "[<mutable>] * n repeats ONE object"
             per_thread = str(e.key) in ("on_going_events", "on_going_traces", "last_data_newthread", "last_data_exec", "tids_names")
+            if e.value.op == "new" and any(v.op in ("list", "dict", "set") for _, v in e.value.a[1]):
+                # record-to-record state kept inside an object of a helper class: which thread a slot of it belongs to is
+                # decided by that class's own methods, which the keyed-by-thread rules below do not follow
+                raise AnalysisError(f"self.{e.key} is an object of {e.value.a[0].rsplit('.', 1)[1]} holding mutable containers: state "
+                                    f"that lives in helper objects is not followed by the thread-keying rules")
             if per_thread or shared:
                 run.ob("R5", tp.module.name, "TracesParser.__init__", f"{e.key} starts without shared per-thread objects", shared is None,
                        "" if shared is None else
